@@ -29,4 +29,4 @@ For each change i in {{{first},{second}}} write into {out}/i/ :
   - a demonstration: a self-contained Rust test file demo.rs that can be dropped into the crate as `tests/demo.rs` (integration test using `use rxrust::prelude::*;`; if it needs crate-private items put it somewhere else and say so) which FAILS with the change applied and PASSES on the unchanged code; keep it deterministic (no sleeps/real threads unless the point is a thread interleaving, in which case make the interleaving deterministic or highly reliable),
   - notes.md : which part of the statement is broken, what exactly is needed for it to manifest, and the exact commands you ran with their outcome (test-suite with the change: pass; demo with the change: fail; demo without the change: pass).
 
-Procedure: read the relevant source in {wt}/src, choose a change, apply it, run the test-suite, write and run the demo with and without the change (use `git -C {wt} stash` / `git -C {wt} checkout -- src` to switch), save the artefacts, then restore the worktree to the pinned state (`git -C {wt} checkout -- . && git -C {wt} clean -fdq -e target`) before starting the second change. Leave the worktree clean at the end (the target/ directory may stay). If after real effort you can only find one qualifying change, deliver one and say so. Your final message should summarise, per change: files touched, one-sentence description, what is needed to manifest, and confirmation of (b) and the demo outcomes.""")
+Procedure: read the relevant source in {wt}/src, choose a change, apply it, run the test-suite, write and run the demo with and without the change (to switch between changed and unchanged code save your change with `git -C {wt} diff > /tmp/seed-out/{pid}/wip.diff`, restore with `git -C {wt} checkout -- src`, re-apply with `git -C {wt} apply /tmp/seed-out/{pid}/wip.diff`; do NOT use `git stash`: the stash is shared with other people's worktrees of the same repository), save the artefacts, then restore the worktree to the pinned state (`git -C {wt} checkout -- . && git -C {wt} clean -fdq -e target`) before starting the second change. Leave the worktree clean at the end (the target/ directory may stay). If after real effort you can only find one qualifying change, deliver one and say so. Your final message should summarise, per change: files touched, one-sentence description, what is needed to manifest, and confirmation of (b) and the demo outcomes.""")
